@@ -441,6 +441,21 @@ func (in *Interp) interceptByPackage(fn *ssa.Function, name string, args []Value
 	if fn.Pkg == nil {
 		return nil, false
 	}
+	if r, ok := in.interceptPool(fn, name, args); ok {
+		return r, true
+	}
+	if in.job.SummariseLogAdd && in.job.Mode == "real" && fn.Pkg.Pkg.Path() == in.repoMod+"/logarithmetic" && fn.Name() == "LogAdd" && len(args) == 2 {
+		a, b := args[0].(*term.Term), args[1].(*term.Term)
+		negInf := func(t *term.Term) bool { return t.IsConst() && math.IsInf(t.F, -1) }
+		in.stubsSeen["summary:logarithmetic.LogAdd"]++
+		switch {
+		case negInf(a):
+			return b, true
+		case negInf(b):
+			return a, true
+		}
+		return in.mathUF1("Log", term.Fadd(in.expOf(a), in.expOf(b))), true
+	}
 	if in.job.SummariseLogAdd && in.job.Mode == "real" && fn.Signature.Recv() != nil && fn.Pkg.Pkg.Path() == in.repoMod &&
 		(fn.Name() == "LogAdd" || fn.Name() == "LOGADD") && len(args) == 4 {
 		if r, ok := in.logAddSummary(fn, args); ok {
@@ -561,6 +576,16 @@ func (in *Interp) expOf(t *term.Term) *term.Term {
 }
 
 func (in *Interp) expAtom(t *term.Term) *term.Term {
+	if t.IsConst() {
+		// constants that are logarithms of small integers (observation counters
+		// pass through math.Log): exp(log k) = k  (snapping table, DESIGN 3.2)
+		for k := 2; k <= 64; k++ {
+			if t.F == math.Log(float64(k)) {
+				in.stubsSeen["snap:exp(log k)=k"]++
+				return term.FloatC(term.F64, float64(k))
+			}
+		}
+	}
 	if t.IsConst() && t.F < 0 {
 		// one atom per |c|: exp(-c) = 1/exp(c)
 		return term.Fdiv(term.FloatC(term.F64, 1), in.expAtom(term.FloatC(term.F64, -t.F)))
@@ -654,4 +679,98 @@ func (in *Interp) logAddSummary(fn *ssa.Function, args []Value) (Value, bool) {
 		return args[0], true
 	}
 	return nil, true
+}
+
+// ---------------------------------------------------------------------------
+// thread pool contract stub (DESIGN 6/C17). A pool of k > 1 threads is modelled
+// by its contract: AddJob runs each job exactly once, inline, with a ThreadPool
+// whose thread id is an arbitrary value in [0,k) (one path per assignment);
+// jobs with equal id run in submission order; Wait returns after all jobs.
+// Every heap cell read or written while a job runs is logged with the job, so
+// that non-interference between jobs of different threads can be asserted.
+
+type poolJobLog struct {
+	id     int64
+	reads  map[*Value]bool
+	writes map[*Value]bool
+}
+
+const poolPkg = "github.com/pbenner/threadpool"
+
+func (in *Interp) interceptPool(fn *ssa.Function, name string, args []Value) (Value, bool) {
+	path := fn.Pkg.Pkg.Path()
+	if path == "sync" {
+		switch fn.Name() {
+		case "Lock", "Unlock", "RLock", "RUnlock", "Wait", "Done", "Add":
+			if fn.Signature.Recv() != nil {
+				return nil, true
+			}
+		}
+		return nil, false
+	}
+	if path != poolPkg || in.poolThreads <= 1 {
+		return nil, false
+	}
+	switch fn.Name() {
+	case "New":
+		if fn.Signature.Recv() == nil {
+			st := fn.Signature.Results().At(0).Type().Underlying().(*types.Struct)
+			inner := st.Field(0).Type().Underlying().(*types.Pointer).Elem()
+			p := new(Value)
+			*p = in.zero(inner)
+			return Struct{p, term.IntC(term.I64, 0)}, true
+		}
+	case "NumberOfThreads":
+		return term.IntC(term.I64, int64(in.poolThreads)), true
+	case "NewJobGroup":
+		in.poolGroups++
+		return term.IntC(term.I64, int64(in.poolGroups)), true
+	case "Wait":
+		if fn.Signature.Recv() != nil && fn.Signature.Params().Len() == 1 {
+			return Iface{}, true
+		}
+	case "AddJob":
+		// args: receiver ThreadPool (Struct), jobGroup, f
+		recv := args[0].(Struct)
+		id := int64(0)
+		if !in.concrete {
+			v := in.input(term.I64, "thread")
+			in.addPC(term.Le(term.IntC(term.I64, 0), v))
+			in.addPC(term.Lt(v, term.IntC(term.I64, int64(in.poolThreads))))
+			id = in.concInt(v)
+		}
+		pool := copyVal(recv).(Struct)
+		pool[1] = term.IntC(term.I64, id)
+		erf := &Closure{Fn: in.poolErf}
+		log := &poolJobLog{id: id, reads: map[*Value]bool{}, writes: map[*Value]bool{}}
+		saved := in.curJob
+		in.curJob = log
+		res := in.callValue(args[2], []Value{pool, erf})
+		in.curJob = saved
+		in.poolJobs = append(in.poolJobs, log)
+		if e, ok := res.(Iface); ok && e.T != nil {
+			return e, true
+		}
+		return Iface{}, true
+	}
+	return nil, false
+}
+
+// poolInterference reports a cell written by one job and accessed by a job of
+// a different thread.
+func (in *Interp) poolInterference() int {
+	n := 0
+	for i, a := range in.poolJobs {
+		for j, b := range in.poolJobs {
+			if i == j || a.id == b.id {
+				continue
+			}
+			for p := range a.writes {
+				if b.reads[p] || b.writes[p] {
+					n++
+				}
+			}
+		}
+	}
+	return n
 }
